@@ -2407,6 +2407,15 @@ create_filesystem_object(struct archive_write_disk *a)
 				__archive_ensure_cloexec_flag(a->fd);
 				if (a->fd < 0)
 					r = errno;
+			} else {
+				/*
+				 * There is nothing to pour the data into,
+				 * and the new name may be a hard link to a
+				 * symlink: never apply metadata through it
+				 * (chmod() would follow the link).
+				 */
+				a->todo = 0;
+				a->deferred = 0;
 			}
 		}
 		return (r);
